@@ -1731,6 +1731,47 @@ def run(tier):
               '"unknown" one included: it asks for the sort of the same '
               'operand more than once, so without the memo its cost doubles '
               'per nesting level (shared with C16.R8)', sub16)
+    def _reviewed_mutators(chk, prog):
+        chk.rule('C03.R13', 'the termination argument is per mutator: every '
+                 'mutator class of the package is one of the 53 whose '
+                 'proposals were reviewed for a decreasing measure or a '
+                 'one-step guard (sa/known_mutators.json); a new mutator is '
+                 'not covered by the argument')
+        import json as _json
+        import os as _os
+        known = _json.load(open(_os.path.join(_os.path.dirname(
+            _os.path.dirname(_os.path.abspath(__file__))),
+            'known_mutators.json')))
+        n = 0
+        new = []
+        for m_ in prog.pkg_modules():
+            if not m_.name.startswith('mutators_'):
+                continue
+            for c in m_.tree.body:
+                if isinstance(c, ast.ClassDef) and any(
+                        isinstance(x, ast.FunctionDef) and x.name in (
+                            'mutations', 'global_mutations')
+                        for x in c.body):
+                    n += 1
+                    if c.name not in known.get(m_.name, []) and not any(
+                            c.name in v for v in known.values()):
+                        new.append(f'{m_.name}.{c.name}')
+        chk.instance('C03.R13', 'package', f'{n} mutator classes, all '
+                     'reviewed', not new, 'frozen list', nontrivial=True)
+        if new:
+            raise AnalysisError(
+                f'C03.R13: mutator(s) {new} are not in the reviewed list: '
+                'whether their proposals strictly decrease a measure (or '
+                'cannot be undone by another mutator) has not been argued; '
+                'the check cannot vouch for termination with them')
+
+    chk.guard(_reviewed_mutators, chk, prog)
+    from .. import mutstate
+    chk.guard(mutstate.report, chk, prog, 'C03.R12',
+              'mutators keep no state from one call to the next: their '
+              'protocol methods store nothing on the object, the class or '
+              'module-level containers except option values and constants',
+              'a guard that consults a stale table lets the very pair of rewrites through that it exists to break (replace by variable / inline again)')
     extra = None
     if tier == 'thorough':
         from .. import selftest
